@@ -80,9 +80,72 @@ def cfgOf (ws : List String) : Cfg :=
     maxChunk := natOf (argOf ws "maxk" "1048576"), translateHead := argOf ws "th" "1" == "1",
     concatChunks := argOf ws "cc" "1" == "1" }
 
+def splitNonEmpty (s : String) (sep : String) : List String :=
+  if s == "-" || s == "" then [] else s.splitOn sep
+
+/-- `addid=<id>:<hex>,...` -/
+def addIds (hs : Bytes) (spec : String) : Option Bytes :=
+  (splitNonEmpty spec ",").foldlM (fun acc e =>
+    match e.splitOn ":" with
+    | [i, v] => (unhex v).map fun v => acc ++ Enc.toHeaderId (natOf i) v
+    | _ => none) hs
+
+/-- `add=<hexname>:<hexvalue>,...` -/
+def addNamed (hs : Bytes) (spec : String) : Option Bytes :=
+  (splitNonEmpty spec ",").foldlM (fun acc e =>
+    match e.splitOn ":" with
+    | [n, v] => do
+      let n ← unhex n
+      let v ← unhex v
+      pure (acc ++ Enc.toHeader n v)
+    | _ => none) hs
+
+
+def feedRx (st : St) (data : Bytes) : St × List String :=
+  match st.rx with
+  | .req cfg r =>
+    let (r', rest, ds) := RR.readLoop cfg (data.length + 3) r data []
+    ({ st with rx := .req cfg r' }, ds.map reqLine ++ [s!"read-done calls={ds.length} left={rest.length}"])
+  | .resp cfg r =>
+    let (r', rest, ds) := RS.readLoop cfg (data.length + 3) r data []
+    ({ st with rx := .resp cfg r' }, ds.map respLine ++ [s!"read-done calls={ds.length} left={rest.length}"])
+  | .none => (st, ["bad-op"])
+
 /-- receiver operations -/
 def rxOp (st : St) (ws : List String) : Option (St × List String) :=
   match ws with
+  | "encfeed-req" :: rest => do
+      let v ← unhex (argOf rest "v" "3131")
+      let u ← unhex (argOf rest "u" "-")
+      let hs ← unhex (argOf rest "hs" "-")
+      let body ← unhex (argOf rest "b" "-")
+      let mid := argOf rest "mid"
+      let m ← if mid != "" then some (Enc.methodName (natOf mid)) else unhex (argOf rest "m" "-")
+      let hs1 ← addIds hs (argOf rest "addid" "-")
+      let hs2 ← addNamed hs1 (argOf rest "add" "-")
+      let msg := Enc.txRequestMessage m u (v.getD 0 0) (v.getD 1 0) hs2 body.length
+      pure (feedRx st (if argOf rest "chunked" "0" == "1" then msg else msg ++ body))
+  | "encfeed-resp" :: rest => do
+      let v ← unhex (argOf rest "v" "3131")
+      let hs ← unhex (argOf rest "hs" "-")
+      let body ← unhex (argOf rest "b" "-")
+      let stt : Int := (argOf rest "st" "200").toInt?.getD 200
+      let rs := argOf rest "rs" "default"
+      let reason ← if rs == "default" then some (Enc.reasonPhrase stt) else
+        (unhex rs).map fun r => if r.isEmpty then Enc.reasonPhrase stt else r
+      let hs1 ← addIds hs (argOf rest "addid" "-")
+      let hs2 ← addNamed hs1 (argOf rest "add" "-")
+      let msg := Enc.txResponseMessage (v.getD 0 0) (v.getD 1 0) stt reason hs2 body.length
+      pure (feedRx st (if argOf rest "chunked" "0" == "1" then msg else msg ++ body))
+  | "encfeed-chunk" :: rest => do
+      let d ← unhex (argOf rest "d" "-")
+      let e ← unhex (argOf rest "ext" "-")
+      pure (feedRx st (Enc.chunkHeader d.length e ++ d ++ [13, 10]))
+  | "encfeed-last" :: rest => do
+      let e ← unhex (argOf rest "ext" "-")
+      let t ← unhex (argOf rest "tr" "-")
+      let t2 ← addNamed t (argOf rest "add" "-")
+      pure (feedRx st (Enc.lastChunk e t2))
   | "rqnew" :: rest => some ({ st with rx := .req (cfgOf rest) {} }, ["ok"])
   | "rsnew" :: rest => some ({ st with rx := .resp (cfgOf rest) {} }, ["ok"])
   | [op, h] =>
@@ -123,26 +186,6 @@ def hashFn (mode : Nat) (k : Nat) : Nat :=
 
 def kvOut (l : List (Nat × Int)) : String :=
   if l.isEmpty then "-" else String.intercalate "," (l.map fun (k, v) => s!"{k}={v}")
-
-def splitNonEmpty (s : String) (sep : String) : List String :=
-  if s == "-" || s == "" then [] else s.splitOn sep
-
-/-- `addid=<id>:<hex>,...` -/
-def addIds (hs : Bytes) (spec : String) : Option Bytes :=
-  (splitNonEmpty spec ",").foldlM (fun acc e =>
-    match e.splitOn ":" with
-    | [i, v] => (unhex v).map fun v => acc ++ Enc.toHeaderId (natOf i) v
-    | _ => none) hs
-
-/-- `add=<hexname>:<hexvalue>,...` -/
-def addNamed (hs : Bytes) (spec : String) : Option Bytes :=
-  (splitNonEmpty spec ",").foldlM (fun acc e =>
-    match e.splitOn ":" with
-    | [n, v] => do
-      let n ← unhex n
-      let v ← unhex v
-      pure (acc ++ Enc.toHeader n v)
-    | _ => none) hs
 
 /-- pure operations (no receiver state); `none` = not a pure op -/
 def pureOp (st : St) (ws : List String) : Option (St × List String) :=
